@@ -12,6 +12,9 @@ Definition lit_value (e : expr) : option value :=
   | _ => None
   end.
 
+Lemma declares_fold s : declares (fold_stmt s) = declares s.
+Proof. destruct s; reflexivity. Qed.
+
 Lemma in_vm_range_spec v : in_vm_range v = true -> -140737488355328 <= v < 140737488355328.
 Proof. unfold in_vm_range, FOLD_INT_MIN, FOLD_INT_MAX. lia. Qed.
 
